@@ -368,7 +368,7 @@ def register_quantities_op(name,
     def left_is_number(n, q):
         return f(Quantity(n, QSPACE.get_zero()), q)
     def right_is_number(q, n):
-        return left_is_number(n, q)
+        return f(q, Quantity(n, QSPACE.get_zero()))
     register_function(left_is_number, name, (Number, Quantity))
     register_function(right_is_number, name, (Quantity, Number))
 
